@@ -82,6 +82,7 @@ type g2lUnit struct {
 	cacheCalls map[string]string // "c.record.Do" -> world field holding the memo table (association list): parCache.Do(key, func) looks the key up and otherwise runs the function and stores its result
 	anyType   string             // Lean type standing for interface{} (the value type of the memo tables)
 	localTypes map[string]string // types declared inside function bodies -> Lean structure of the preamble ("cached" -> "Cached")
+	inlineFns map[string]bool    // plain functions compiled in place at their (statement) call sites, pointer parameters as aliases of the caller's places
 	midamble  map[string]string  // function -> hand-written Lean text emitted right before its definition (glue between regenerated functions and imported units)
 	ignoreRecover bool           // `defer func() { … recover() … }()` is dropped: a panic stays Err.panic
 	extraTypeVars []string       // type variables of function signatures besides the abstract types (the world type W)
@@ -194,6 +195,10 @@ type g2lFn struct {
 	inClosure bool
 	labels    map[string]int    // top-level labels of the body -> statement index
 	effType  string
+	nilAlias map[types.Object]bool // inlined pointer parameters whose argument is nil
+	pendingLabel string
+	loopLabels   map[string]labelTarget
+	aliases  map[types.Object]ast.Expr // local pointer variables initialised with &X[i]: they stand for the place X[i]
 	worldVar *types.Var // synthetic variable standing for the threaded world (nil: the function does not thread one)
 	worldType string
 	usedName map[string]bool
@@ -474,6 +479,11 @@ func (f *g2lFn) zero(t types.Type, at ast.Node) string {
 	if n, ok := t.(*types.Named); ok && f.u.sumNil[n.Obj().Name()] {
 		return "(" + n.Obj().Name() + ".nil)"
 	}
+	if n, ok := t.(*types.Named); ok && n.Obj().Parent() != f.p.pkg.Scope() && n.Obj().Pkg() == f.p.pkg {
+		if lt, ok := f.u.localTypes[n.Obj().Name()]; ok {
+			return "(default : " + lt + ")"
+		}
+	}
 	if n, ok := t.(*types.Named); ok {
 		if v, ok := f.u.absTypes[n.Obj().Name()]; ok {
 			return "(default : " + v + ")"
@@ -669,6 +679,33 @@ func (f *g2lFn) expr(b *binds, e ast.Expr) string {
 			}
 			return "none"
 		}
+		if fo, ok := f.p.info.Uses[e].(*types.Func); ok && fo.Pkg() == f.p.pkg {
+			if _, isW := f.u.worldFns[fo.Name()]; isW {
+				if callee, ok := g2l.fns[f.u.pkgDir+"."+fo.Name()]; ok {
+					// less := lineLess — a world function as a value: a function of the arguments and the world
+					sig := fo.Type().(*types.Signature)
+					ps := []string{}
+					for i := 0; i < sig.Params().Len(); i++ {
+						ps = append(ps, fmt.Sprintf("a%d", i))
+					}
+					pre := ""
+					for _, a := range callee.absUsed {
+						f.useAbs(a)
+						pre += a + " "
+					}
+					if callee.fuel {
+						f.fuel = true
+						pre += "fuel "
+					}
+					f.pure = false
+					return fmt.Sprintf("(fun %s w => %s %s%s w)", strings.Join(ps, " "), callee.leanName, pre, strings.Join(ps, " "))
+				}
+			}
+		}
+		if al, ok := f.aliases[f.p.info.Uses[e]]; ok {
+			// com := &line.Suffix[0]: the variable stands for the place it points to
+			return f.expr(b, al)
+		}
 		if o, ok := f.p.info.Uses[e].(*types.Var); ok && !o.IsField() && o.Parent() == f.p.pkg.Scope() {
 			if p, ok := f.u.absVars[e.Name]; ok {
 				f.useAbs(p)
@@ -777,6 +814,11 @@ func (f *g2lFn) expr(b *binds, e ast.Expr) string {
 		}
 		f.bad(e, "unary %s", e.Op)
 	case *ast.StarExpr:
+		if len(f.u.heapTypes) > 0 {
+			if v, ok := f.derefHeap(b, e.X); ok {
+				return v
+			}
+		}
 		return f.expr(b, e.X)
 	case *ast.BinaryExpr:
 		return f.binary(b, e)
@@ -797,9 +839,7 @@ func (f *g2lFn) expr(b *binds, e ast.Expr) string {
 		}
 		f.bad(e, "index of %s", f.typeOf(e.X))
 	case *ast.SliceExpr:
-		if e.Slice3 {
-			f.bad(e, "3-index slice")
-		}
+		// x[lo:hi:max]: the capacity limit only forces a later append to copy — which is what a value does anyway
 		x := f.expr(b, e.X)
 		if _, ok := f.typeOf(e.X).Underlying().(*types.Array); ok {
 			if n, ok := f.typeOf(e.X).(*types.Named); ok && e.Low == nil && e.High == nil {
@@ -896,6 +936,26 @@ func (f *g2lFn) expr(b *binds, e ast.Expr) string {
 	case *ast.CompositeLit:
 		return f.composite(b, e)
 	case *ast.TypeAssertExpr:
+		// block, ok := stmt.(*LineBlock) on a sum of pointers
+		if sn, ok := f.typeOf(e.X).(*types.Named); ok && e.Type != nil {
+			if variants, ok := f.u.sumTypes[sn.Obj().Name()]; ok && len(f.u.heapTypes) > 0 {
+				tt := f.p.info.Types[e.Type].Type
+				if pt, ok := tt.(*types.Pointer); ok {
+					tt = pt.Elem()
+				}
+				if tn, ok := tt.(*types.Named); ok {
+					for _, v := range variants {
+						if v == tn.Obj().Name() {
+							x := f.expr(b, e.X)
+							if tup, ok := f.typeOf(e).(*types.Tuple); ok && tup.Len() == 2 {
+								return fmt.Sprintf("(match %s with | %s.%s p => (p, true) | _ => ((0 : Int), false))", x, sn.Obj().Name(), v)
+							}
+							return f.bindM(b, fmt.Sprintf("(match %s with | %s.%s p => pure p | _ => throw Err.panic : M Int)", x, sn.Obj().Name(), v))
+						}
+					}
+				}
+			}
+		}
 		// x.(T) where x has the configured interface{} representation and T is its local struct type: the value itself
 		if f.u.anyType != "" && e.Type != nil {
 			if it, ok := f.typeOf(e.X).Underlying().(*types.Interface); ok && it.NumMethods() == 0 {
@@ -1053,6 +1113,30 @@ func (f *g2lFn) composite(b *binds, e *ast.CompositeLit) string {
 }
 
 func (f *g2lFn) binary(b *binds, e *ast.BinaryExpr) string {
+	if e.Op == token.EQL || e.Op == token.NEQ {
+		// p == nil / p != nil for an inlined pointer parameter: decided by its argument
+		for _, pr := range [][2]ast.Expr{{e.X, e.Y}, {e.Y, e.X}} {
+			if id, ok := pr[0].(*ast.Ident); ok {
+				if nid, ok := pr[1].(*ast.Ident); ok && nid.Name == "nil" {
+					o := f.p.info.Uses[id]
+					if f.nilAlias[o] {
+						if e.Op == token.EQL {
+							return "true"
+						}
+						return "false"
+					}
+					if al, ok := f.aliases[o]; ok && al != nil {
+						if _, isPtr := o.Type().(*types.Pointer); isPtr {
+							if e.Op == token.EQL {
+								return "false"
+							}
+							return "true"
+						}
+					}
+				}
+			}
+		}
+	}
 	xt := f.typeOf(e.X)
 	switch e.Op {
 	case token.LAND, token.LOR:
